@@ -55,14 +55,14 @@ def record(mod, d, raw, start, gen, c01=True, pack=True):
     return make_record(d, raw, start, gen, ro, po, c01)
 
 
-def judge(records, timeout=3000, workers=8):
+def judge(records, timeout=3000, workers=8, module="Trace_Packet"):
     """-> (TLCResult, {index (0-based): [failed clause names]})"""
     d = tempfile.mkdtemp(prefix="pktrace_")
     path = os.path.join(d, "traces.json")
     with open(path, "w") as fh:
         json.dump(records, fh)
     try:
-        res = run_tlc("Trace_Packet", workers=workers, env={"TRACE_FILE": path}, timeout=timeout)
+        res = run_tlc(module, workers=workers, env={"TRACE_FILE": path}, timeout=timeout)
     finally:
         try:
             os.remove(path)
